@@ -71,6 +71,8 @@ pub fn run_flood_auth(run: &mut Run, prof: u8, count: u32) {
         h.marker = false;
         let pk = rustrtc::rtp::RtpPacket::new(h, vec![0u8; 24]);
         let mut out = vec![0u8; p.tx.protected_rtp_len(&pk)];
+        // the sending side has its own cap on live contexts: a fresh sender (same keys) for every 1000 SSRCs
+        if k % 1000 == 0 { p.tx = pair(prof).tx; }
         if p.tx.protect_rtp(&pk, &mut out).is_ok() { pkts.push(out); }
     }
     let bytes_in: u64 = pkts.iter().map(|x| x.len() as u64).sum();
